@@ -54,7 +54,7 @@ PROPS = {
 
 # engines whose test binary re-executes exactly one recorded case when VERIF_REPLAY is set
 # properties with a second engine contributing to the same check (same VERIF_PROP)
-EXTRA_ENGINES = {"C13": [("netwalk", 2)]}
+EXTRA_ENGINES = {"C13": [("netwalk", 3)]}
 
 DIRECT_REPLAY = {"C01", "C02", "C03", "C04", "C08", "C13", "C05", "C06", "C07", "C18", "C15", "C11", "C12"}
 
